@@ -1,5 +1,6 @@
 import IblVerif.Model.Proto
 import IblVerif.Model.FShift
+import IblVerif.Model.FShiftND
 open IblVerif IblVerif.Proto IblVerif.FShift
 
 /-! Line protocol for C07.  Floats travel as IEEE-754 binary64 bit patterns (decimal).  The driver only parses, calls
@@ -29,8 +30,48 @@ def showRes {α} (f : α → String) : Except Err α → String
   | .ok a => "ok " ++ f a
   | .error e => "err " ++ e.toString
 
+/-- `np.argmax` order on IEEE doubles: a NaN is larger than every number and the first NaN wins (`a < b` is the order the
+theorems are about; the extra disjunct only matters for NaN samples, which `ℝ` does not have) -/
+def floatLt (a b : Float) : Bool := a < b || (b != b && a == a)
+def floatIsZero (a : Float) : Bool := a == 0
+
+def showPairs (a : Array (Float × Float)) : String := showArr (a.map (·.1)) ++ " " ++ showArr (a.map (·.2))
+
 def step (t : List String) : String :=
   match t with
+  | ["fshiftnd", shape, axis, kind, s, x] =>
+    match natList? shape, int? axis, shift? kind s, arr? x with
+    | some shape, some axis, some s, some x => showRes showArr (fshiftND floatTrig shape x s axis)
+    | _, _, _, _ => "bad-op"
+  | ["fshiftfreq", ns, s, re, im] =>
+    match nat? ns, f64? s, arr? re, arr? im with
+    | some ns, some s, some re, some im => showRes showPairs (fshiftFreq1 floatTrig (re.zip im) ns s)
+    | _, _, _, _ => "bad-op"
+  | ["pmax2", w] =>
+    match rows? w with
+    | some w =>
+      if w.any (·.size = 0) then "err empty" else
+      "ok " ++ showPairs (parabolicMax2 (0.5 : Float) floatIsZero floatLt w)
+    | _ => "bad-op"
+  | ["corr", a, b] =>
+    match arr? a, arr? b with
+    | some a, some b => "ok " ++ showArr (correlateSame a b)
+    | _, _ => "bad-op"
+  | ["corrmax", a, b] =>
+    match arr? a, arr? b with
+    | some a, some b =>
+      if a.size = 0 then "err empty" else
+      let r := waveShiftCorrmax floatTrig (0.5 : Float) floatIsZero floatLt a b
+      s!"ok {f64Bits r.2} {showArr r.1}"
+    | _, _ => "bad-op"
+  | ["plan", kind, axis, ns, s, x] =>
+    -- execute the stage list (the one the tie proves equal to the translated source) on a trace
+    match int? axis, int? ns, f64? s, arr? x with
+    | some axis, some ns, some s, some x =>
+      match runPlan floatTrig x s (if kind = "freq" then planFreq axis else planReal (kind = "pertrace") axis ns) with
+      | some y => "ok " ++ showArr y
+      | none => "none"
+    | _, _, _, _ => "bad-op"
   | ["fshift1", axis, kind, s, x] =>
     match int? axis, shift? kind s, arr? x with
     | some axis, some s, some x => showRes showArr (fshift1 floatTrig x s axis)
@@ -60,7 +101,7 @@ def step (t : List String) : String :=
     match arr? x with
     | some x =>
       if x.size = 0 then "err empty" else
-      let r := parabolicMax (0.5 : Float) (fun a => a == 0) (fun a b => a < b) x
+      let r := parabolicMax (0.5 : Float) floatIsZero floatLt x
       s!"ok {f64Bits r.1} {f64Bits r.2}"
     | _ => "bad-op"
   | _ => "bad-op"
